@@ -117,6 +117,11 @@ static svalue_t V_ob (object_t *ob) { svalue_t v; memset (&v, 0, sizeof v); v.ty
 /* ------------------------------------------------------------------ deep equality (types and values; floats at the printed precision) */
 static char why[400];
 static int deq (svalue_t *a, svalue_t *b, int depth) {
+  if (a->type == T_OBJECT) {    /* object references are not persisted: they come back as 0 */
+    if (b->type == T_NUMBER && b->u.number == 0) return 1;
+    snprintf (why, sizeof why, "object reference came back as %s", hx_canon_s (b));
+    return 0;
+  }
   if (a->type != b->type) { snprintf (why, sizeof why, "type changed at depth %d: %s became %s", depth, hx_canon_s (a), hx_canon_s (b)); return 0; }
   switch (a->type) {
   case T_NUMBER:
@@ -309,11 +314,13 @@ static void init_leaves (void) {
   }
   { leaf_t *l = &LEAF[nleaf++]; l->kind = T_STRING; strcpy (l->s, "\"\\\n\r"); strcpy (l->cls, "string-mixed-escapes"); }
   { leaf_t *l = &LEAF[nleaf++]; l->kind = T_STRING; l->s[0] = 0; strcpy (l->cls, "string-empty"); }
+  { leaf_t *l = &LEAF[nleaf++]; l->kind = T_OBJECT; strcpy (l->cls, "object-reference"); }
   { leaf_t *l = &LEAF[nleaf++]; l->kind = T_STRING; strcpy (l->s, "\xc3\xa9"); strcpy (l->cls, "string-utf8"); }
 }
 static svalue_t leaf_value (const leaf_t *l) {
   if (l->kind == T_NUMBER) return V_int (l->i);
   if (l->kind == T_REAL) return V_real (l->f);
+  if (l->kind == T_OBJECT) return V_ob (OTHER);
   return V_str (l->s);
 }
 
